@@ -595,7 +595,38 @@ pub const K20_LAYOUT: &str = "C20-second-pass-changes-layout";
 /// same tokens (ignoring commas directly before a closing bracket) and same comments: the two texts differ in
 /// white space, line breaks and trailing commas only
 fn layout_only_difference(a: &str, b: &str) -> bool {
-	let toks = |s: &str| -> Vec<String> {
+	layout_tokens(a) == layout_tokens(b) && comment_payloads(a) == comment_payloads(b)
+}
+/// Narrowing of the recorded layout finding: it is about groups *with items* whose line breaking follows the previous
+/// pass.  When the only places where the two passes differ in "line break or not" lie between an opening bracket and
+/// the closing bracket that directly follows it (an empty array / object), the difference is not that finding: the
+/// unchanged tree prints `[ ]` / `{ }` the same way on every pass.  (An empty *argument or parameter list* written
+/// over two lines, `f(⏎)`, does re-flow to `f()` on the unchanged tree and stays under the recorded finding.)
+/// Decided only for comment-free texts whose tokens can be located literally.
+fn only_empty_groups_reflowed(a: &str, b: &str) -> bool {
+	if !comment_payloads(a).is_empty() {
+		return false;
+	}
+	let (ta, tb) = (layout_tokens(a), layout_tokens(b));
+	if ta != tb {
+		return false;
+	}
+	let gaps = |text: &str, toks: &[String]| -> Option<Vec<bool>> {
+		let mut pos = 0;
+		let mut out = vec![];
+		for t in toks {
+			let i = text[pos..].find(t.as_str())?;
+			out.push(text[pos..pos + i].contains('\n'));
+			pos += i + t.len();
+		}
+		Some(out)
+	};
+	let (Some(ga), Some(gb)) = (gaps(a, &ta), gaps(b, &tb)) else { return false };
+	let diff: Vec<usize> = (0..ga.len()).filter(|i| ga[*i] != gb[*i]).collect();
+	!diff.is_empty() && diff.iter().all(|i| *i > 0 && matches!((ta[*i - 1].as_str(), ta[*i].as_str()), ("[", "]") | ("{", "}")))
+}
+fn layout_tokens(s: &str) -> Vec<String> {
+	{
 		let t: Vec<String> = c06::lex_tokens(s).into_iter().map(|t| t.1).collect();
 		let mut out = vec![];
 		for (i, x) in t.iter().enumerate() {
@@ -624,8 +655,7 @@ fn layout_only_difference(a: &str, b: &str) -> bool {
 			out.push(x.clone());
 		}
 		out
-	};
-	toks(a) == toks(b) && comment_payloads(a) == comment_payloads(b)
+	}
 }
 /// does repeated formatting reach a fixed point within `n` more passes?
 fn converges(start: &str, indent: u8, n: usize) -> bool {
@@ -670,7 +700,7 @@ pub fn fixpoint_case(run: &Run, p: &Prog) -> CaseOut {
 							// empty lines (every non-empty line unchanged) is not it
 							let non_empty = |s: &str| -> Vec<String> { s.lines().filter(|l| !l.trim().is_empty()).map(str::to_owned).collect() };
 							let blank_lines_only = non_empty(&f1) == non_empty(&f2);
-							if run.is_known(K20_LAYOUT) && !blank_lines_only && layout_only_difference(&f1, &f2) && converges(&f2, indent, 4) {
+							if run.is_known(K20_LAYOUT) && !blank_lines_only && !only_empty_groups_reflowed(&f1, &f2) && layout_only_difference(&f1, &f2) && converges(&f2, indent, 4) {
 								known = Some(K20_LAYOUT.to_owned());
 							} else {
 								problems.push(format!("indent {indent}: formatting the formatter's output changed it\n--- first:\n{f1}--- second:\n{f2}"));
